@@ -646,9 +646,28 @@ def replay_scoping_case(case):
         if case['mode'] == 'lookup':
             fct = json_ast.DznJsonAst(dzn.doc_to_json(env_doc(case['decls']))).process()
             name, scope = scoping.NamespaceIds(list(case['name'])), scoping.NamespaceIds(list(case['scope']))
-            got = found_list(ast_view.find_fqn(fct, name, scope))
+            result = ast_view.find_fqn(fct, name, scope)
+            got = found_list(result)
             if _canon(got) != _canon(case['found']):
                 bad.append(('find_fqn', case['found'], got))
+            # the query functions of the result agree with the model's set of found declarations
+            from dznpy import ast as dast  # pylint: disable=import-outside-toplevel
+            klass = {'component': dast.Component, 'enum': dast.Enum, 'extern': dast.Extern, 'foreign': dast.Foreign,
+                     'interface': dast.Interface, 'subint': dast.SubInt, 'system': dast.System}
+            want = case['found']
+            if result.has_one_instance() != (len(want) == 1):
+                bad.append(('FindResult.has_one_instance()', len(want) == 1, result.has_one_instance()))
+            for kind, cls in klass.items():
+                exp = len(want) == 1 and want[0]['kind'] == kind
+                if result.has_one_instance(cls) != exp:
+                    bad.append((f'FindResult.has_one_instance({kind})', exp, result.has_one_instance(cls)))
+                try:
+                    one = result.get_single_instance(cls)
+                    single = {'kind': kind, 'fqn': list(one.fqn.items)} if isinstance(one, cls) else 'wrong-kind-returned'
+                except ast_view.FindError:
+                    single = None
+                if single != (want[0] if exp else None):
+                    bad.append((f'FindResult.get_single_instance({kind})', want[0] if exp else 'FindError', single))
             if name.items != case['name'] or scope.items != case['scope']:
                 bad.append(('find_fqn mutated its arguments', [case['name'], case['scope']], [name.items, scope.items]))
             if not case['scope']:
